@@ -140,7 +140,16 @@ func (e *env) apply(x *Expr) *Expr {
 // every edge that establishes a predicate accepted by m is deleted. Helper functions that
 // return bool or error are looked into up to `depth` calls.
 func (w *World) Guarded(fn *ssa.Function, site ssa.Instruction, m Matcher, depth int) bool {
-	return w.guarded(fn, site, m, nil, depth, map[holdKey]bool{})
+	if w.guarded(fn, site, m, nil, depth, map[holdKey]bool{}) {
+		return true
+	}
+	// the same question on the call-expanded view, whose walk carries what the helpers on the way returned (a verdict
+	// enumeration the caller switches on, a record of flags): paths that contradict those facts are not paths
+	if len(fn.Blocks) == 0 || site.Parent() != fn {
+		return false
+	}
+	root := w.FlatRoot(fn)
+	return w.FlatReaches(root, nil, &FlatCut{Matcher: m, Depth: depth}, func(p FPos) bool { return p.Ctx == root && p.In == site }) == nil
 }
 
 type holdKey struct {
@@ -1532,3 +1541,6 @@ func (w *World) recordOrigin(fn *ssa.Function, base ssa.Value, en *env, depth in
 	}
 	return nil, nil, nil, false
 }
+
+// SingleAssignment: the binding is the address of a local stored to exactly once (and never by a closure): the value stored.
+func SingleAssignment(b ssa.Value) ssa.Value { return singleAssignment(b) }
